@@ -200,3 +200,28 @@ PROPS["C08"] = dict(
     rule=_DECODE_RULE + "History family: 1-4 history utterances then a target; decoders default | compallsen | cmn=batch. Two-decoder family: two utterances interleaved chunk by chunk. Non-trivial = history of >= 2 steps differing from the target in audio or grammar and a target hypothesis (history family), or a hypothesis on either decoder (two-decoder family); distinct = distinct case text.",
     assumptions=["the channel-normalisation state is the one deliberate carry-over and is reset with decoder_set_cmn"],
 )
+
+PROPS["C16"] = dict(
+    harness="decode",
+    level="exploration",
+    technique="model-based stateful property testing: generated histories of word additions (valid and invalid), lookups and immediate use in forced alignment against a reference dictionary model (map + alternate chains)",
+    level_text="Histories of 1-22 operations on a live decoder: additions over word classes {new, alternate with/without base, duplicate of base/alternate, empty, one char, 300 chars, odd parentheses, case variant} x pronunciation classes {1/2/3-6/30 phones, one-letter phones, odd blanks/tabs, unknown phone at any position, wrong case, empty, blank}, bursts of 4200 additions across the reallocation step, lookups, and forced alignment over a just-added word; after every operation the return value, word count, identities, pronunciations and every alternate chain (walked read-only) are compared with the model, and the whole dictionary at the end.",
+    level_note="Trusted: the reference model (std::map, per-base alternate sets), the model's acceptance rule derived from the property text (phones over the model's phone set, non-empty word and pronunciation, not a duplicate, alternates need their base).",
+    quick=dict(cases=500, maxlen=500, budget=100),
+    thorough=dict(cases=12000, maxlen=500, budget=1200),
+    rule=("choices decode to an operation history: add(word class, pronunciation class, update flag) / burst of 4200 adds / lookup / align-and-decode "
+          "with a newly added word. Non-trivial = the history contains at least one accepted and one rejected addition; distinct = distinct history text."),
+    assumptions=["the dictionary is case-sensitive (dictcase default)", "word spellings used in alignment text contain no whitespace"],
+)
+
+PROPS["C04"] = dict(
+    harness="decode",
+    level="exploration",
+    technique="property-based testing of hierarchy invariants on generated decodes: alignment words vs first-pass segmentation, phones vs dictionary, states vs model, contiguity and partition at every level, parent = sum of children, cache identity / no stale object after failure",
+    level_text="decoder_alignment is requested at partial points and at the end of generated decodes (alignment text, JSGF and FSG grammars; speech, noise and degenerate audio; streaming, buffered and full_utt input): the words must be exactly the dictionary words of the first-pass segmentation with the same start frames and durations, phones the dictionary pronunciation, states the model's emitting states; every level contiguous from frame 0 with positive durations, children partitioning their parent; parent score equal to the sum of its children; same object when asked twice, and NULL stays NULL.",
+    level_note="Trusted: the iterators of alignment.h as observation interface, dictionary accessors for the expected pronunciation. The independent within-word rescoring and the cross-pass score clause are decided by the viterbi harness (C02/C04 share the captured senone scores there).",
+    quick=dict(cases=200, maxlen=600, budget=100),
+    thorough=dict(cases=5000, maxlen=600, budget=1200),
+    rule=_DECODE_RULE + "Non-trivial = an alignment with >= 2 real words; distinct = distinct case text.",
+    assumptions=["grammar words are dictionary words"],
+)
